@@ -7,6 +7,7 @@ package hapsim
 import (
 	"context"
 	"fmt"
+	"strings"
 	"time"
 
 	"github.com/go-logr/logr"
@@ -38,6 +39,8 @@ type CtlConfig struct {
 	DefaultSSLCertificate    string   `json:"default_ssl_certificate,omitempty"`
 	SortEndpointsBy          string   `json:"sort_endpoints_by,omitempty"`
 	DisableKeywords          []string `json:"disable_keywords,omitempty"`
+	Acme                     bool     `json:"acme,omitempty"`
+	AcmeTrackTLSAnn          bool     `json:"acme_track_tls_ann,omitempty"`
 	Gateway                  bool     `json:"gateway,omitempty"`
 	GatewayB1                bool     `json:"gateway_b1,omitempty"`
 	GatewayA2                bool     `json:"gateway_a2,omitempty"`
@@ -112,6 +115,15 @@ func (cc *CtlConfig) build(prefix string, scheme *runtime.Scheme, ctx context.Co
 	if cc.TCPConfigMap {
 		cfg.TCPConfigMapName = tcpConfigMapName
 	}
+	if cc.Acme {
+		cfg.AcmeServer = true
+		cfg.AcmeCheckPeriod = 24 * time.Hour
+		cfg.AcmeFailInitialDuration = 5 * time.Minute
+		cfg.AcmeFailMaxDuration = 8 * time.Hour
+		cfg.AcmeSecretKeyName = podNamespace + "/acme-private-key"
+		cfg.AcmeTokenConfigMapName = podNamespace + "/acme-validation-tokens"
+		cfg.AcmeTrackTLSAnn = cc.AcmeTrackTLSAnn
+	}
 	return cfg
 }
 
@@ -149,8 +161,14 @@ func (r *Run) StartController() (*Controller, error) {
 		cancel()
 		return nil, fmt.Errorf("reconciler setup: %w", err)
 	}
+	if r.Cfg.Ctl.Acme {
+		r.acmeInstall(c)
+	}
 	for _, rn := range c.mgr.runnables {
 		rn := rn
+		if strings.Contains(fmt.Sprintf("%T", rn), "svcAcmeServer") {
+			continue // the challenge responder listens on a real unix socket: not started
+		}
 		go func() {
 			_ = rn.Start(ctx)
 		}()
